@@ -316,6 +316,10 @@ class Pipeline:
         else:
             self.drop(f=old)
         self.add(new)
+        if self.cache is not None:
+            # Results of the replaced function and of everything downstream of it
+            # are keyed by output name and arguments only, so they are stale now.
+            self.cache.clear()
         self._clear_internal_cache()
         self._validate()
 
